@@ -11,15 +11,16 @@ theorem codeMod_fields (env : Env) (m : Mod) :
     (codeMod env m).id = m.id ∧ (codeMod env m).imps = m.imps ∧ (codeMod env m).inl = m.inl ∧
     (codeMod env m).iface = m.iface ∧ (codeMod env m).coded = true := by
   unfold codeMod
-  split <;> simp_all
+  split
+  · simp_all
+  · split <;> simp_all
 
-theorem callAll_done (s : State) : (callAll s).done = s.done.map (codeMod s.env) := by
-  unfold callAll
-  simp only
-  split <;> rfl
+/-- no call of the list loads an existing module object again -/
+def NoReload (h : List Op) : Prop := ∀ op ∈ h, ∀ k, op ≠ .reload k
 
 /-- a step leaves every module of `done` in place; only `call` may touch it, through `codeMod` -/
-theorem step_done_get {s : State} {op : Op} {i : Nat} {m : Mod} (hm : s.done[i]? = some m) :
+theorem step_done_get {s : State} {op : Op} {i : Nat} {m : Mod} (hm : s.done[i]? = some m)
+    (hop : ∀ k, op ≠ .reload k) :
     (step s op).done[i]? = some m ∨ (step s op).done[i]? = some (codeMod s.env m) := by
   unfold step
   split
@@ -48,36 +49,43 @@ theorem step_done_get {s : State} {op : Op} {i : Nat} {m : Mod} (hm : s.done[i]?
     | call =>
       right
       simp only [callAll_done, List.getElem?_map, hm, Option.map_some]
+    | reload k => exact absurd rfl (hop k)
 
 theorem step_done_coded {s : State} {op : Op} {i : Nat} {m : Mod} (hm : s.done[i]? = some m)
-    (hc : m.coded = true) : (step s op).done[i]? = some m := by
-  rcases step_done_get (op := op) hm with h | h
+    (hc : m.coded = true) (hop : ∀ k, op ≠ .reload k) : (step s op).done[i]? = some m := by
+  rcases step_done_get (op := op) hm hop with h | h
   · exact h
   · rw [h, codeMod_coded hc]
 
 theorem runFrom_done_coded {s : State} (h : List Op) {i : Nat} {m : Mod} (hm : s.done[i]? = some m)
-    (hc : m.coded = true) : (runFrom s h).done[i]? = some m := by
+    (hc : m.coded = true) (hno : NoReload h) : (runFrom s h).done[i]? = some m := by
   induction h generalizing s with
   | nil => exact hm
-  | cons op t ih => rw [runFrom_cons]; exact ih (step_done_coded hm hc)
+  | cons op t ih =>
+    rw [runFrom_cons]
+    exact ih (step_done_coded hm hc (hno op (List.mem_cons_self ..)))
+      (fun o ho => hno o (List.mem_cons_of_mem _ ho))
 
 /-! `funcLinked` only grows -/
 
-theorem step_done_ids {s : State} {op : Op} {id : Nat} (h : funcLinked s id = true) :
-    funcLinked (step s op) id = true := by
+theorem step_done_ids {s : State} {op : Op} {id : Nat} (h : funcLinked s id = true)
+    (hop : ∀ k, op ≠ .reload k) : funcLinked (step s op) id = true := by
   simp only [funcLinked, List.any_eq_true] at h ⊢
   obtain ⟨m, hm, hid⟩ := h
   obtain ⟨i, hi, hget⟩ := List.mem_iff_getElem.1 hm
   have hm' : s.done[i]? = some m := by rw [List.getElem?_eq_getElem hi, hget]
-  rcases step_done_get (op := op) hm' with h | h
+  rcases step_done_get (op := op) hm' hop with h | h
   · exact ⟨m, List.mem_of_getElem? h, hid⟩
   · exact ⟨codeMod s.env m, List.mem_of_getElem? h, by rw [(codeMod_fields s.env m).1]; exact hid⟩
 
-theorem runFrom_done_ids {s : State} (h : List Op) {id : Nat} (hl : funcLinked s id = true) :
-    funcLinked (runFrom s h) id = true := by
+theorem runFrom_done_ids {s : State} (h : List Op) {id : Nat} (hl : funcLinked s id = true)
+    (hno : NoReload h) : funcLinked (runFrom s h) id = true := by
   induction h generalizing s with
   | nil => exact hl
-  | cons op t ih => rw [runFrom_cons]; exact ih (step_done_ids hl)
+  | cons op t ih =>
+    rw [runFrom_cons]
+    exact ih (step_done_ids hl (hno op (List.mem_cons_self ..)))
+      (fun o ho => hno o (List.mem_cons_of_mem _ ho))
 
 theorem observeImp_mono {s s' : State} (hmono : ∀ id, funcLinked s id = true → funcLinked s' id = true)
     (m : Mod) (p : Name × Use) {v : Nat} (h : observeImp s m p = some v) :
